@@ -14,6 +14,7 @@ mod c14;
 mod c16;
 mod c17;
 mod c18;
+mod c19;
 mod c20;
 
 use common::Args;
@@ -44,6 +45,7 @@ fn main() {
         "c16" => c16::run(&a),
         "c17" => c17::run(&a),
         "c18" => c18::run(&a),
+        "c19" => c19::run(&a),
         "c20" => c20::run(&a),
         "c01" => wire::run_c01(&a),
         "c03" => wire::run_c03(&a),
